@@ -416,7 +416,7 @@ def run_harness(h, tier, want_playback=False):
 def run_harness_in(h, tier, want_playback, slot):
     caps = TIER_CAPS["playback" if want_playback else tier]
     os.makedirs(WORK, exist_ok=True)
-    logf = os.path.join(WORK, "%s%s.log" % (h["name"], ".playback" if want_playback else ""))
+    logf = os.path.join(WORK, "%s%s%s.log" % (h["name"], h.get("log_suffix", ""), ".playback" if want_playback else ""))
     t0 = time.time()
     base = kani_base(h["feat"], slot) + ["--harness", h["name"], "--exact"]
     # phase 1: compile /repo (current working tree) + this harness to a goto program
@@ -557,8 +557,9 @@ def finding_key(prop, hname, role):
     return "%s/%s/%s" % (prop, hname, role)
 
 
-def run_pool(hs, tier, playback=False):
+def run_pool(hs, tier, playback=False, key=None):
     jobs = min(TIER_CAPS["playback" if playback else tier]["jobs"], SLOTS.qsize() or 1)
+    key = key or (lambda h: h["name"])
     res = {}
     with concurrent.futures.ThreadPoolExecutor(max_workers=jobs) as ex:
         futs = {ex.submit(run_harness, h, tier, playback): h for h in hs}
@@ -568,12 +569,12 @@ def run_pool(hs, tier, playback=False):
                 r = f.result()
             except Exception as e:  # noqa
                 r = dict(name=h["name"], outcome="error", detail=repr(e), wall_s=0.0)
-            res[h["name"]] = r
+            res[key(h)] = r
             st = r.get("parsed", {}).get("stats", {})
             log(
                 "  %-28s %-8s %6.1fs  checks=%s vars=%s %s"
                 % (
-                    h["name"],
+                    h["name"] + (".salt%d" % h["salt"] if h.get("salt") else ""),
                     r["outcome"],
                     r.get("wall_s", 0.0),
                     r.get("parsed", {}).get("checks", "-"),
@@ -592,6 +593,13 @@ def check(prop, tier, only=None):
     hs = [h for h in table if h["prop"] == prop and (tier == "thorough" or h["tier"] == "quick")]
     if only:
         hs = [h for h in table if h["name"] in only]
+    # calibrated default salt per cargo feature (see "Salted retries" below): the crate hash that
+    # is known to give the precise (folded) encoding on the unchanged tree is tried first
+    for h in hs:
+        k = DEFAULT_SALT.get(h["feat"])
+        if k:
+            h["feat"] = "%s,salt%d" % (h["feat"], k)
+            h["default_salt"] = k
     if not hs:
         log("no harnesses registered for %s" % prop)
         return 2
@@ -621,7 +629,7 @@ def check(prop, tier, only=None):
     write_excl(excl)
 
     log("== %s %s: %d harnesses, features %s, repo src hash %s" % (prop, tier, len(hs), feats, repo_hash()))
-    njobs = min(TIER_CAPS[tier]["jobs"], len(hs))
+    njobs = min(TIER_CAPS[tier]["jobs"], max(len(hs), 3))  # at least 3 slots: salted re-runs
     ok, secs, logf = prepare_slots(njobs)
     log("  prepared %d build slots in %.0fs: %s" % (njobs, secs, "ok" if ok else "FAILED"))
     if not ok:
@@ -641,6 +649,40 @@ def check(prop, tier, only=None):
         hs.sort(key=lambda h: h["name"])
 
     results = run_pool(hs, tier)
+    # Salted retries.  Measured on c12_capacity and c07_hex_*: whether CBMC folds some loops (and
+    # then whether a handful of pointer / dealloc checks on dangling zero-length pointers come out
+    # FAILED) depends on the *crate hash* of the harness crate - adding an unrelated dependency or
+    # an empty cargo feature flips the verdict, and the counterexamples never reproduce natively.
+    # A SUCCESSFUL verdict is sound whatever was folded (non-folding only loses precision), so a
+    # failed harness is re-run with up to three "salt" features (no code depends on them; they only
+    # change the crate hash).  One SUCCESSFUL run settles it; a genuine violation fails every salt
+    # and goes on to counterexample extraction and native replay as before.
+    failed_first = [h for h in hs if results[h["name"]]["outcome"] == "fail"]
+    salted_pass = {}
+    if failed_first:
+        log("  -- %d harness(es) failed; salted re-runs (crate-hash perturbation) before counterexample extraction" % len(failed_first))
+        salted = []
+        for h in failed_first:
+            for k in (1, 2, 3):
+                h2 = dict(h)
+                base_feat = h["feat"].split(",")[0]
+                # the three crate hashes not tried yet (0 = no salt feature)
+                alt = [x for x in (0, 1, 2, 3, 4) if x != h.get("default_salt", 0)][k - 1]
+                h2["feat"] = base_feat if alt == 0 else "%s,salt%d" % (base_feat, alt)
+                h2["salt"] = k
+                h2["log_suffix"] = ".salt%d" % k
+                salted.append(h2)
+        sres = run_pool(salted, tier, key=lambda x: (x["name"], x.get("salt", 0)))
+        for h in failed_first:
+            for k in (1, 2, 3):
+                r2 = sres.get((h["name"], k))
+                if r2 and r2["outcome"] == "pass":
+                    r2["spurious_failure_without_salt"] = [f["desc"] for f in results[h["name"]].get("parsed", {}).get("failed", [])][:6]
+                    r2["salt"] = k
+                    results[h["name"]] = r2
+                    salted_pass[h["name"]] = k
+                    log("    %s: SUCCESSFUL with salt%d - the unsalted failure was spurious" % (h["name"], k))
+                    break
     violations = []
     known_hits = []
     inconclusive = []
@@ -755,6 +797,8 @@ def check(prop, tier, only=None):
                 harness=h["name"],
                 body=h["body"],
                 outcome=r["outcome"],
+                salt=r.get("salt"),
+                spurious_failure_without_salt=r.get("spurious_failure_without_salt"),
                 unwind=h["unwind"],
                 mode=h["mode"],
                 recursion_caps=h["caps"],
@@ -842,6 +886,7 @@ ASSUMPTIONS = [
 FUNCTIONS = {}
 BOUNDS = {}
 OUTSIDE = {}
+DEFAULT_SALT = {}
 
 
 def load_meta():
@@ -851,6 +896,7 @@ def load_meta():
         FUNCTIONS.update(m.get("functions", {}))
         BOUNDS.update(m.get("bounds", {}))
         OUTSIDE.update(m.get("outside", {}))
+        DEFAULT_SALT.update(m.get("default_salt", {}))
 
 
 def replay_file(path):
